@@ -473,3 +473,62 @@ _load("meta-without-last_update", "C06Gel", [("no-last_update-key", "not ('last_
       dead=["meta['last_update'] = "])
 _load("meta-with-last_update", "C06GelLU", [("last_update-carried", "result['meta']['last_update'] == gel['meta']['last_update']"),
                                           ("meta-has-seven-keys", "len(result['meta']) == 7")])
+
+# ---------------------------------------------------------------- edge re-keying keeps the written edge order (byte fixpoint)
+# write_snapshot serialises payload["gel"]["edges"] in dict (insertion) order, so "snapshotting the loaded state again
+# reproduces the same body byte for byte" needs the loader to hand the edges back in the order they were written.  The
+# re-keying loops of load_latest_snapshot and write_snapshot are verified as regions (the real `for` statement nodes;
+# free variables `edges`, `new_edges`) over the engine's insertion-ordered maps: when the new keys of distinct edges are
+# distinct (true for every snapshot body written by write_snapshot: its edge keys *are* those keys), the i-th edge of
+# the result is the i-th edge of the input under its "a→b" key.
+import ast as _ast
+
+
+def _rekey_loop(fn):
+    out = []
+    for n in _ast.walk(fn):
+        if isinstance(n, _ast.For) and any(
+                isinstance(t, _ast.Subscript) and isinstance(t.value, _ast.Name) and t.value.id == "new_edges"
+                for s in _ast.walk(n) if isinstance(s, _ast.Assign) for t in s.targets):
+            out.append(n)
+    return sorted(out, key=lambda n: n.lineno)[:1]
+
+
+R.region("rekey-loop", _rekey_loop)
+R.dictshape("C06EdgeId", required={"src": "str", "dst": "str", "rel": "str", "weight": "float",
+                                  "updated_at": "Optional[str]", "attrs": "Dict[str, str]"}, optional={"id": "str"})
+for _fn in ("load_latest_snapshot", "write_snapshot"):
+    R.contract(
+        S + _fn + "#rekey-loop", "C06", name=_fn + "/edge-rekey-loop", callee=False, replay="c06_snapshot:rekey_order_search",
+        types={"edges": "OrderedDict[str, C06EdgeId]", "new_edges": "OrderedDict[str, C06EdgeId]"},
+        requires=[
+            ("starts-empty", "len(new_edges) == 0"),
+            ("endpoints-non-empty", "forall((k, 'str'), k in edges, len(edges[k]['src']) > 0 and len(edges[k]['dst']) > 0)"),
+            ("new-keys-distinct", "forall(i, 0 <= i < len(edges), forall(j, i < j and j < len(edges), "
+             "arrow_key(edges[okeys(edges)[i]]) != arrow_key(edges[okeys(edges)[j]])))"),
+        ],
+        ensures=[
+            ("same-number-of-edges", "len(new_edges) == len(edges)"),
+            ("i-th-edge-stays-i-th-under-its-arrow-key",
+             "forall(i, 0 <= i < len(edges), okeys(new_edges)[i] == arrow_key(edges[okeys(edges)[i]]))"),
+            ("records-carried", "forall(i, 0 <= i < len(edges), "
+             "new_edges[okeys(new_edges)[i]]['src'] == edges[okeys(edges)[i]]['src'] and "
+             "new_edges[okeys(new_edges)[i]]['dst'] == edges[okeys(edges)[i]]['dst'] and "
+             "new_edges[okeys(new_edges)[i]]['rel'] == edges[okeys(edges)[i]]['rel'] and "
+             "new_edges[okeys(new_edges)[i]]['weight'] == edges[okeys(edges)[i]]['weight'] and "
+             "new_edges[okeys(new_edges)[i]]['id'] == okeys(new_edges)[i])"),
+            ("input-untouched", "seq_eq(edges, old(edges))"),
+        ],
+        raises="none",
+        loops={0: {"inv": [
+            "len(new_edges) == _i",
+            "forall(j, 0 <= j < _i, okeys(new_edges)[j] == arrow_key(edges[okeys(edges)[j]]))",
+            "forall(j, 0 <= j < _i, new_edges[okeys(new_edges)[j]]['src'] == edges[okeys(edges)[j]]['src'] and "
+            "new_edges[okeys(new_edges)[j]]['dst'] == edges[okeys(edges)[j]]['dst'] and "
+            "new_edges[okeys(new_edges)[j]]['rel'] == edges[okeys(edges)[j]]['rel'] and "
+            "new_edges[okeys(new_edges)[j]]['weight'] == edges[okeys(edges)[j]]['weight'] and "
+            "new_edges[okeys(new_edges)[j]]['id'] == okeys(new_edges)[j])",
+        ]}},
+        # records are dicts with non-empty string endpoints (stated input invariant): the skip / keep-old-key arms are dead
+        unreachable_ok=["continue", "new_edges[k] = rec"],
+    )
